@@ -256,11 +256,30 @@ func c08b(c *core.Ctx, oe *orderEngine) {
 	c.Run("recovery", func() {
 		start := c.Fn(st + ".FileQueue.Start")
 		open := c.Method(st+".SyncFileDB", "Open")
-		qstart := c.Method(st+".FileQueue", "start")
+		qstart := c.MethodOpt(st+".FileQueue", "start")
 		check := c.Method(st+".FileQueue", "checkFile")
 		cf := heeded(c, start, check, core.ErrNonNil, 1, nil)
 		oe.after("FileQueue.Start:SyncFileDB.Open≺checkFile", callsTo("SyncFileDB.Open", open), "FileQueue.checkFile", instrs(cf))
-		oe.after("FileQueue.Start:start≺checkFile", callsTo("FileQueue.start", qstart), "FileQueue.checkFile", instrs(cf))
+		if qstart != nil {
+			oe.after("FileQueue.Start:start≺checkFile", callsTo("FileQueue.start", qstart), "FileQueue.checkFile", instrs(cf))
+		} else {
+			// start() was inlined into Start: the goroutine that drains DoneChan is started by a go statement of Start itself
+			okGo := len(cf) > 0
+			for _, a := range cf {
+				before := false
+				for _, bb := range start.Blocks {
+					for _, in := range bb.Instrs {
+						if g, isGo := in.(*ssa.Go); isGo && core.Dominates(g, a) {
+							before = true
+						}
+					}
+				}
+				if !before {
+					okGo = false
+				}
+			}
+			c.Check("FileQueue.Start:start≺checkFile", "order", okGo, start.Pos(), "the goroutine that releases delivered records is started (go statement in Start) before the write-ahead file is scanned")
+		}
 
 		checkFn := c.Fn(st + ".FileQueue.checkFile")
 		scan := c.Method(st+".FileQueue", "scanFile")
